@@ -29,7 +29,8 @@ import (
 type c14Cell struct {
 	Op    string `json:"op"`    // kvset kvdel vadd vdel vmeta vbatch glink gunlink vcreate vdrop
 	Admin string `json:"admin"` // snapshot | rewrite
-	PJ    int    `json:"pj"`    // admin position at which the write is started and runs up to its journal point
+	PJ    int    `json:"pj"`    // admin position at which the write is started and runs up to its park point
+	Park  string `json:"park,omitempty"` // "" = parked right after journaling; "mid" = parked between the vector insert/delete and the metadata update (vadd, vbatch, vdel)
 	PD    int    `json:"pd"`    // admin position at which the parked write is released (apply + return)
 }
 
@@ -39,6 +40,8 @@ var c14AdminPoints = map[string][]string{
 }
 
 var c14Ops = []string{"kvset", "kvdel", "vadd", "vdel", "vmeta", "vbatch", "glink", "gunlink", "vcreate", "vdrop"}
+
+var c14MidPoint = map[string]string{"vadd": "vadd.vector_added", "vbatch": "vbatch.vectors_added", "vdel": "vdel.node_deleted"}
 
 var c14JournalPoint = map[string]string{
 	"kvset": "kvset.journaled", "kvdel": "kvdel.journaled", "vadd": "vadd.journaled", "vdel": "vdel.journaled", "vmeta": "vmeta.journaled",
@@ -53,6 +56,9 @@ func c14AllCells() []c14Cell {
 			for pj := 0; pj <= n+1; pj++ {
 				for pd := pj; pd <= n+1; pd++ {
 					out = append(out, c14Cell{Op: op, Admin: admin, PJ: pj, PD: pd})
+					if _, ok := c14MidPoint[op]; ok && pd > pj {
+						out = append(out, c14Cell{Op: op, Admin: admin, PJ: pj, PD: pd, Park: "mid"})
+					}
 				}
 			}
 		}
@@ -110,6 +116,9 @@ func c14RunCell(c c14Cell) (out c14Outcome) {
 	writerAt := make(chan struct{}, 1) // writer reports that it is parked at its journal point
 	writerGo := make(chan struct{})
 	jp := c14JournalPoint[c.Op]
+	if c.Park == "mid" {
+		jp = c14MidPoint[c.Op]
+	}
 	var hookMu sync.Mutex
 	released := false
 	SetExtraHook(func(name string) {
@@ -300,8 +309,12 @@ func c14RunCell(c c14Cell) (out c14Outcome) {
 			}
 		case "vbatch":
 			for _, id := range []string{"e", "f"} {
-				if _, err := e.VGet("i0", id); err != nil {
+				vd, err := e.VGet("i0", id)
+				if err != nil {
 					return fmt.Sprintf("%s: item %s of the acknowledged VAddBatch is missing: %v", when, id, err)
+				}
+				if id == "f" && vd.Metadata["s"] != "f" {
+					return fmt.Sprintf("%s: item f of the acknowledged VAddBatch lost its metadata: %v", when, vd.Metadata)
 				}
 			}
 		case "glink":
@@ -366,12 +379,16 @@ func (c c14Cell) String() string {
 			return "at " + pts[p-1]
 		}
 	}
-	return fmt.Sprintf("%s: journaled %s, applied+acknowledged %s", c.Op, name(c.PJ), name(c.PD))
+	park := "journaled"
+	if c.Park == "mid" {
+		park = "journaled and half applied (vector done, metadata pending)"
+	}
+	return fmt.Sprintf("%s: %s %s, applied+acknowledged %s", c.Op, park, name(c.PJ), name(c.PD))
 }
 
 func TestVerif_C14_schedules(t *testing.T) {
 	col := verifkit.New("C14", "schedules",
-		"ENUMERATION of forced schedules: 10 write kinds (kvset kvdel vadd vdel vmeta vbatch glink gunlink vcreate vdrop) x {SaveSnapshot, RewriteAOF} x every pair (position where the write is journaled and parked <= position where it is applied and acknowledged) over the 7 positions before/at each of 5 phase boundaries/after the admin op = 560 cells; each on a fresh engine with a fixture, then Close/Open and the acknowledged write (and the fixture) must be present; non-trivial = the write's journal or apply step falls strictly inside the admin operation")
+		"ENUMERATION of forced schedules: 10 write kinds (kvset kvdel vadd vdel vmeta vbatch glink gunlink vcreate vdrop) x {SaveSnapshot, RewriteAOF} x every pair (position where the write is parked - right after journaling, or for vadd/vbatch/vdel also between the vector step and the metadata step - <= position where it is released and acknowledged) over the 7 positions before/at each of 5 phase boundaries/after the admin op = 686 cells; each on a fresh engine with a fixture, then Close/Open and the acknowledged write (and the fixture) must be present; non-trivial = the write's journal or apply step falls strictly inside the admin operation")
 	defer col.Finish()
 	if p := verifkit.ReplayPath(); p != "" {
 		if verifkit.ReplayPart(p) != "schedules" {
